@@ -272,7 +272,7 @@ def r11_1(rep):
 
 
 # ============================================================================ R11.2 post-return
-def r11_2(rep):
+def r11_2_mir(rep):
     c = mir.load("ws", "wit_bindgen_c", "rlib")
     sites = [(f, cl) for f in c.fns.values() for cl in f.calls("abi::post_return")]
     rep.floor("R11.2", "calls of abi::post_return in wit_bindgen_c", len(sites), 1)
@@ -311,12 +311,13 @@ def r11_2(rep):
             if o2.get("kind") == "discr" and isinstance(o2.get("of"), dict) and o2["of"].get("kind") == "call" and \
                     re.search(r"Iterator>::next$|::next$", o2["of"]["call"].callee):
                 continue
-            if o2.get("kind") == "discr" and any(b in f.reachable(0, avoid=[sb]) for b in [cl.bb]):
-                continue
             other.append(f"{o2.get('kind')} at {f.loc(sb)}")
         rep.ob("R11.2", f"{nm}: besides the predicate, only `!is_async` decides whether the post-return is generated",
                not other, f"additional guards: {other}" if other else "guards: predicate (true), is_async (false), loop exits", f.loc(cl.bb))
-    # ---- syntax: what is written on that edge
+
+
+def r11_2_syn(rep):
+    """what is written on that edge"""
     fn = the_fn("export", self_ty="InterfaceGenerator")
     rep.saw(f"{REL}::export")
     pr_call = None
@@ -329,18 +330,25 @@ def r11_2(rep):
     ifs = [(i, b) for i, b in ch if i.get("k") == "if"]
     branch = None
     for i, b in ifs:
-        cj = conjuncts(i["cond"])
-        if b == "then" and any(c.get("k") == "call" and c["func"].get("k") == "path" and
-                               synq.short(c["func"]["path"]) == "guest_export_needs_post_return" for c in cj):
+        c0 = i["cond"]
+        while c0.get("k") == "paren":
+            c0 = c0["e"]
+        if c0.get("k") == "path":      # a condition computed into a local beforehand is looked through
+            lb = lookup(fn.node, c0["path"], i)
+            if lb and lb[0] == "let" and lb[1].get("init") is not None:
+                c0 = lb[1]["init"]
+        asks = [c for c in synq.fn_calls(c0, "guest_export_needs_post_return")]
+        if asks and b == "then":
             branch = i
-            rep.ob("R11.2", "export: the predicate is the whole condition of the post-return branch", len(cj) == 1,
+            pred_call = asks[0]
+            rep.ob("R11.2", "export: the predicate is the whole condition of the post-return branch", c0 is asks[0],
                    f"condition `{render(i['cond'])}`", fn.loc(i))
     if branch is None:
         raise AnchorMissing("export: abi::post_return is not inside an `if guest_export_needs_post_return(..)` branch")
     blk = branch["then"]
     funcp = [p["pat"]["name"] for p in fn.node["sig"]["params"] if not p.get("self") and p["pat"].get("k") == "p_ident" and
              p["ty"].replace(" ", "") == "&Function"]
-    pa = [c for c in conjuncts(branch["cond"]) if c.get("k") == "call"][0]
+    pa = pred_call
     rep.ob("R11.2", "export: predicate and abi::post_return are asked about the exported function itself",
            len(funcp) == 1 and render(pa["args"][-1]) == funcp[0] and render(call["args"][1]) == funcp[0],
            f"predicate({render(pa['args'][-1])}), post_return({render(call['args'][1])})", fn.loc(call))
@@ -363,7 +371,6 @@ def r11_2(rep):
     bg = [render(a["e"]) for a in call["args"] if a.get("k") == "ref" and a.get("mut")]
     F = bg[0] if len(bg) == 1 else None
     st = blk["stmts"]
-    idx = {id(s): i for i, s in enumerate(st)}
     ci = next((i for i, s in enumerate(st) if contains(s, call)), None)
     destr = [(i, s) for i, s in enumerate(st) if s.get("k") == "let" and s.get("init") is not None and render(s["init"]) == F and
              s["pat"].get("k") == "p_struct" and any(fl["name"] == "src" for fl in s["pat"]["fields"])]
@@ -465,6 +472,20 @@ def r11_3_templates(rep):
                len(bodies) == 1 and len(loops) == 1 and len(base) == 1 and
                pos(loops[0].node) < pos(base[0].node) < pos(bodies[0].node) < pos(fr.node),
                f"element block variables {sorted(bv)}; emitted by {len(bodies)} template(s)", f.loc(a.node))
+    # why the guards matter: the allocator hands out a non-heap pointer for empty lists
+    pi = the_fn("print_intrinsics", self_ty="C")
+    rep.saw(f"{REL}::print_intrinsics")
+    ra = [x for s_ in synq.strings(pi.body) for x in parse_c_functions_plain(s_["v"]) if x[0] == "cabi_realloc"]
+    okz, det = False, f"{len(ra)} definition(s) of cabi_realloc"
+    if len(ra) == 1:
+        ps = [q.strip().split()[-1].lstrip("*") for q in ra[0][1].split(",")]
+        body = ra[0][2]
+        z = re.search(r"if\s*\(\s*(\w+)\s*==\s*0\s*\)\s*return\s*\(void\s*\*\)\s*(\w+)\s*;", body)
+        al = re.search(r"\b(realloc|malloc|calloc)\s*\(", body)
+        okz = bool(z) and len(ps) == 4 and z.group(1) == ps[3] and z.group(2) == ps[2] and bool(al) and z.start() < al.start()
+        det = f"parameters {ps}; zero-size path: `{z.group(0) if z else None}`"
+    rep.ob("R11.3", "cabi_realloc: a zero-sized request returns the alignment as a dangling pointer, before any allocation (never to be freed)",
+           okz, det, pi.loc())
     # strings and plain allocations
     for inst in ("GuestDeallocateString", "GuestDeallocate"):
         arms = explicit_arms(m, inst)
@@ -494,7 +515,8 @@ def r11_3_templates(rep):
     tms = templates(a.body)
     drained = [(nm, init) for nm, init, st in synq.bindings(a.body) if init is not None and synq.method_calls(init, "drain")]
     pren = pat_ren(a)
-    okd = len(drained) == 1 and re.search(r"self\.blocks\.drain\(\(?self\.blocks\.len\(\) - \*?\$blocks\)?\.\.\)", render(drained[0][1], pren)) is not None
+    okd = len(drained) == 1 and re.fullmatch(r"self\.blocks\.drain\(\(?self\.blocks\.len\(\) - \*?\$blocks\)?\.\.\)(\.collect\(\))?",
+                                             render(drained[0][1], pren)) is not None
     rep.ob("R11.3", "GuestDeallocateVariant: takes the last `blocks` blocks (one per case)", okd,
            f"{[render(i, pren)[:80] for _, i in drained]}", f.loc(a.node))
     loops = [n for n in synq.walk(a.body) if n.get("k") == "for"]
@@ -770,6 +792,88 @@ def r11_3_helpers(rep):
         rep.ob("R11.3", "define_dtor: Variant: the case label is the case's index and exists only for cases with a payload",
                hv == [iv] and len(cond) == 1 and re.match(r"^let Some = &?\w+\.ty$", render(cond[0]["cond"])) is not None,
                f"label {hv}, index `{iv}`, condition {[render(c['cond']) for c in cond]}", f.loc(a.node))
+    # the place handed to self.free and the type handed to it belong to the same component
+    def place_hole(a, call):
+        """expression filling the hole of the C place passed to self.free (through a let-bound format! if needed)"""
+        e = call["args"][1]
+        while e.get("k") == "ref":
+            e = e["e"]
+        if e.get("k") == "path":
+            for nm, init, st in synq.bindings(a.body):
+                if nm == e["path"] and init is not None:
+                    e = init
+        if e.get("k") == "macro" and e.get("args"):
+            hs = synq.Fmt(e).hole_exprs()
+            if len(hs) == 1:
+                return render(hs[0][2]) if hs[0][2] is not None else hs[0][1]
+        return None
+    for k in ("Record", "Variant", "Tuple"):
+        a = arm_of(k)
+        lp = [n for n in synq.walk(a.body) if n.get("k") == "for"]
+        frees = [n for kd, n in trace(a.body) if kd == "free"]
+        ok, det = False, f"{len(lp)} loop(s), {len(frees)} free call(s)"
+        if len(lp) == 1 and len(frees) == 1:
+            pat = lp[0]["pat"]
+            ty, hole = render(frees[0]["args"][0]), place_hole(a, frees[0])
+            if k == "Record":
+                v = pat.get("name")
+                ok = ty == f"&{v}.ty" and hole == f"to_c_ident(&{v}.name)"
+            elif k == "Variant":
+                v = pat["elems"][1].get("name") if pat.get("k") == "p_tuple" and len(pat["elems"]) == 2 else None
+                cond = [n for n in synq.walk(lp[0]["body"]) if n.get("k") == "if" and contains(n["then"], frees[0])]
+                bound = [x["name"] for c in cond for x in synq.walk(c["cond"]) if x.get("k") == "p_ident"]
+                ok = v is not None and hole == f"to_c_ident(&{v}.name)" and ty in bound and \
+                    any(re.match(rf"^let Some = &?{re.escape(v)}\.ty$", render(c["cond"])) for c in cond)
+            else:
+                i_, v = (pat["elems"][0].get("name"), pat["elems"][1].get("name")) if pat.get("k") == "p_tuple" and len(pat["elems"]) == 2 else (None, None)
+                ok = v is not None and ty == v and hole == i_
+            det = f"type `{ty}`, place hole `{hole}`"
+        rep.ob("R11.3", f"define_dtor: {k}: the freed place and the freed type are those of the same component", ok, det, f.loc(a.node))
+    # ---- every type that gets a C name also gets its helper generated
+    dl = the_fn("define_live_types", self_ty="InterfaceGenerator")
+    rep.saw(f"{REL}::define_live_types")
+    loops = [n for n in synq.walk(dl.body) if n.get("k") == "for" and synq.method_calls(n["body"], "define_dtor")]
+    if len(loops) != 1 or loops[0]["pat"].get("k") != "p_ident":
+        raise AnchorMissing(f"define_live_types: {len(loops)} loops calling define_dtor")
+    lp = loops[0]
+    tyv = lp["pat"]["name"]
+    dcalls = [(n, ch) for n, ch in walk_ctx(lp["body"]) if n.get("k") == "mcall" and n["method"] == "define_dtor"]
+    rep.ob("R11.3", "define_live_types: define_dtor(ty) closes every iteration that is not left early", len(dcalls) == 1 and not dcalls[0][1] and
+           render(dcalls[0][0]["args"][0]) == tyv and contains(lp["body"]["stmts"][-1], dcalls[0][0]),
+           f"{[render(n) for n, _ in dcalls]} under {[len(ch) for _, ch in dcalls]} condition(s)", dl.loc(dcalls[0][0]) if dcalls else dl.loc())
+    named = [n for n in synq.walk(lp["body"]) if n.get("k") == "mcall" and n["method"] == "insert" and render(n["recv"]).endswith(".type_names")
+             and n["args"] and render(n["args"][0]) == tyv]
+    exits = []
+    for n, ch in walk_ctx(lp["body"]):
+        if n.get("k") in ("continue", "break", "return") or (n.get("k") == "other" and n.get("src", "").strip() in ("continue", "break")):
+            if any(b == "loop" for i, b in ch):
+                continue
+            before = [x for x in named if pos(x) < pos(n)]
+            # the insertion must lie on the way to this exit: same arm / block nesting
+            onpath = [x for x in before if all(not (i.get("k") == "if" and contains(i, x) and not contains(i, n)) for i in [y for y in synq.walk(lp["body"]) if y.get("k") == "if"])
+                      and all(not (contains(arm_, x) and not contains(arm_, n)) for mm in synq.matches_in(lp["body"]) for arm_ in mm["arms"])]
+            if onpath:
+                exits.append((n, ch))
+    rep.floor("R11.3", "define_live_types: early exits taken after the type received its C name", len(exits), 1)
+    seen_inst = {}
+    for n, ch in exits:
+        conds = [("" if b == "then" else "not ") + render(i["cond"]) for i, b in ch if i.get("k") == "if"]
+        handle = any(c.get("k") == "let_cond" and synq.pat_head(c["pat"]).endswith("TypeDefKind::Handle") and b == "then"
+                     for i, b in ch if i.get("k") == "if" for c in conjuncts(i["cond"]))
+        inst = "define_live_types: the early exit under `" + " && ".join(conds) + "` does not lose a free helper"
+        seen_inst[inst] = seen_inst.get(inst, 0) + 1
+        rep.ob("R11.3", inst + (f" (#{seen_inst[inst]})" if seen_inst[inst] > 1 else ""), handle,
+               "only handles leave early, and define_dtor emits nothing for a handle" if handle else
+               "the type is entered in `type_names` but define_dtor is skipped, so `dtor_funcs` has no entry for this TypeId and "
+               "`free()` silently emits nothing for every field / element of this type: the `*_free` helper of an enclosing "
+               "record / variant / list leaks it", dl.loc(n))
+    # ---- helpers registered for imported types survive the switch to exports exactly like the types' names
+    rt = the_fn("remove_types_redefined_by_exports", self_ty="C")
+    rep.saw(f"{REL}::remove_types_redefined_by_exports")
+    rets = {render(c["recv"]).split(".")[-1]: render(c["args"][0]) for c in synq.method_calls(rt.body, "retain") if len(c["args"]) == 1}
+    rep.ob("R11.3", "remove_types_redefined_by_exports: `dtor_funcs` is trimmed by the same predicate as `type_names` and `resources`",
+           {"dtor_funcs", "type_names", "resources"} <= set(rets) and len({rets[k] for k in ("dtor_funcs", "type_names", "resources")}) == 1,
+           f"{rets}", rt.loc())
     # ---- the per-Type dispatcher `free`
     g = the_fn("free", self_ty="InterfaceGenerator")
     rep.saw(f"{REL}::free")
@@ -827,6 +931,18 @@ def r11_3_helpers(rep):
         rep.ob("R11.3", "string_free: leaves the string empty (ptr = NULL, len = 0), so a second free is a no-op",
                re.search(re.escape(arg or "?") + r"->ptr\s*=\s*NULL\s*;", rest) is not None and
                re.search(re.escape(arg or "?") + r"->len\s*=\s*0\s*;", rest) is not None, f"after the free: `{' '.join(rest.split())}`", fin.loc(s))
+
+
+def parse_c_functions_plain(text):
+    """(name, params, body) of C function definitions in plain (non-format) C text"""
+    out = []
+    for m in re.finditer(r"([A-Za-z_]\w*)\s*\(([^()]*)\)\s*\{", text):
+        depth, i = 1, m.end()
+        while i < len(text) and depth:
+            depth += {"{": 1, "}": -1}.get(text[i], 0)
+            i += 1
+        out.append((m.group(1), m.group(2).strip(), text[m.end():i - 1]))
+    return out
 
 
 def parse_c_functions_nested(text):
@@ -947,6 +1063,26 @@ def r11_5(rep):
         asg = [t for t in tms if t.fm is not None and render(t.fm.dest) == "self.src" and re.match(r"^\s*\{" + re.escape(var or "?") + r"\}\s*=\s*\{(\w+)\}\s*;", t.text)]
         rep.ob("R11.5", "emit: the local is declared as 0 ahead of the body and receives the lifted handle", len(decl) == 1 and len(asg) == 1,
                f"{[t.text.strip() for t in decl + asg]}", f.loc(n))
+    # borrows hidden inside lists / maps cannot be recorded one by one: lifting them must refuse to go on
+    for inst in ("ListCanonLift", "ListLift", "MapLift"):
+        arms = explicit_arms(m, inst)
+        if len(arms) != 1:
+            raise AnchorMissing(f"emit: {len(arms)} arms for Instruction::{inst}")
+        a = arms[0]
+        pr = pat_ren(a)
+        cs = [c for c in synq.method_calls(a.body, "assert_no_droppable_borrows") if render(c["recv"]) == "self"]
+        first = a.body["stmts"][0] if a.body.get("k") == "block" and a.body["stmts"] else None
+        rep.ob("R11.5", f"emit: {inst} first checks that the lifted list carries no auto-droppable borrow", len(cs) == 1 and first is not None and
+               contains(first, cs[0]) and render(cs[0]["args"][-1], pr) == "&Type::Id(*$ty)", f"{[render(c, pr)[:70] for c in cs]}", f.loc(a.node))
+    chk = the_fn("assert_no_droppable_borrows", self_ty="FunctionBindgen")
+    cj = []
+    for n_ in synq.walk(chk.body):
+        if n_.get("k") == "if" and any(x.get("k") == "macro" and synq.short(x["name"]) == "panic" for x in synq.walk(n_["then"])):
+            cj = sorted(render(c) for c in conjuncts(n_["cond"]))
+    typ = [p_ for p_, t_ in zip(chk.params, chk.node["sig"]["params"]) if t_.get("ty", "").replace(" ", "") == "&Type"]
+    rep.ob("R11.5", "assert_no_droppable_borrows: stops generation exactly when (export, autodrop on, the type contains a droppable borrow)",
+           len(typ) == 1 and cj == sorted(["!self.r#gen.in_import", "self.r#gen.autodrop_enabled()", f"self.r#gen.contains_droppable_borrow({typ[0]})"]),
+           f"{cj}", chk.loc())
     # the export side of Return drops each recorded borrow once, before returning
     rets = [a for a in explicit_arms(m, "Return") if a.guard is None or "in_import" not in render(a.guard)]
     if len(rets) != 1:
@@ -990,11 +1126,15 @@ def run(rep, tier):
         "templates: one free of operand 0, guarded by len > 0, after the element block, stride = canonical size of the "
         "instruction's own element / entry, case i runs block i; the `*_free` helper table agrees kind by kind with "
         "core's `needs_deallocate` (owns / owns nothing / walks the same components), payloads are freed under their "
-        "discriminant, buffers after their elements; `{snake}_string_free` frees once under len > 0 and resets. "
+        "discriminant, buffers after their elements; `{snake}_string_free` frees once under len > 0 and resets; every "
+        "type that receives a C name in define_live_types also reaches define_dtor (handles excepted), `dtor_funcs` is "
+        "trimmed like `type_names` when exports start, and cabi_realloc hands out no heap memory for size 0 (the reason "
+        "for the len > 0 guards). "
         "(R11.4) no other instruction template and no import wrapper frees or drops; list/string/map lowering emits no "
         "statement and passes the caller's pointer. (R11.5) auto-dropped borrows are recorded only for borrows lifted in "
         "exports with autodrop on (not for the component's own resources), and the export-side Return drops each once "
-        "before returning. NOT decided: a run-time malloc/free ledger, that user code honours the README's ownership "
+        "before returning; lifting a list / map first refuses (export, autodrop, droppable borrow inside). NOT decided: the "
+        "table of `contains_droppable_borrow`, a run-time malloc/free ledger, that user code honours the README's ownership "
         "rules, async task-return paths, C struct layout = canonical layout (so that `&list_ptr[i]` is element i).",
         trusted_base=["syn parse of crates/c and crates/core/src/abi.rs", "rustc MIR of wit-bindgen-c",
                       "core `needs_deallocate` as the owns-memory oracle (its own tables are C03's subject)",
@@ -1009,7 +1149,8 @@ def run(rep, tier):
     rep.rule("R11.5", "auto-dropped borrows: recorded only for imported-resource borrows in exports, dropped once")
     rep.saw(file=REL)
     rep.guard("R11.1", "destructor export", lambda: r11_1(rep))
-    rep.guard("R11.2", "post-return", lambda: r11_2(rep))
+    rep.guard("R11.2", "post-return guard (MIR)", lambda: r11_2_mir(rep))
+    rep.guard("R11.2", "post-return function", lambda: r11_2_syn(rep))
     rep.guard("R11.3", "GuestDeallocate templates", lambda: r11_3_templates(rep))
     rep.guard("R11.3", "free helpers", lambda: r11_3_helpers(rep))
     rep.guard("R11.4", "nothing else releases", lambda: r11_4(rep))
